@@ -147,7 +147,11 @@ def main():
                     hv = sorted(D[int(a[0])].hashvals)
                     res = "ok " + join_or(",", [str(h) for h in hv])
                 elif op == "sigs":
-                    items = [tok_of(ss.name) + "=" + join_or(",", [str(h) for h in sorted(ss.minhash.hashes)])
+                    # a reconstructed sketch must be AT the database's scaled (a cache surviving downsample_scaled
+                    # keeps the old value: seeded C18b); the model never prints the marker
+                    dsc = D[int(a[0])].scaled
+                    items = [tok_of(ss.name) + ("" if ss.minhash.scaled == dsc else f"@scaled{ss.minhash.scaled}") + "="
+                             + join_or(",", [str(h) for h in sorted(ss.minhash.hashes)])
                              for ss in D[int(a[0])].signatures()]
                     res = "ok " + join_or("|", sorted(items))
                 elif op == "down":
